@@ -16,6 +16,13 @@ static inline size_t enc_size(int g, bool compressed) { return (g == 1 ? 48 : 96
 // (G1: x,y ; G2: x.c1,x.c0,y.c1,y.c0).
 struct MPoint { int g = 1; bool inf = false; std::vector<uint8_t> xy; };   // xy: 96 or 192 bytes
 
+// Replace the curve point in `aff` by [r] times itself, through the reference double-and-add: what is left has no component in the order-r subgroup.
+static inline void cofactor_part(Rep& R, int g, Buf& aff) {
+    uint8_t k[32]; K().r.to_le(k, 32);
+    if (g == 1) { G1v p, t; R.jv_g1_from_affine(1, p.b, aff.p); R.jv_g1_mul_ref(t.b, p.b, k); R.jv_g1affine_from_projective(1, aff.p, t.b); }
+    else { G2v p, t; R.jv_g2_from_affine(1, p.b, aff.p); R.jv_g2_mul_ref(t.b, p.b, k); R.jv_g2affine_from_projective(1, aff.p, t.b); }
+}
+
 static inline MPoint mpoint_of_affine(Rep& R, int g, const void* affine) {
     MPoint m; m.g = g; uint8_t c[193];
     if (g == 1) { R.jv_g1a_canon(c, affine); m.inf = c[0] != 0; m.xy.resize(96); if (!m.inf) R.jv_g1a_xy(m.xy.data(), affine); }
